@@ -37,6 +37,18 @@ CHECKS = {
         text="Real InlineTrans validate+apply (no force) on every call site of a generated caller/callee family (element+index actuals, sections and whole arrays against assumed-shape / shifted / explicit-shape formals, expression and literal actuals, name clashes, optional and named arguments, module variables, calls in loops). The original is executed symbolically with argument association fixed at the call; the inlined routine as straight code. One z3 query per call site decides equality of all caller observables for all inputs and extents <= E, and a second query decides that the inlined code stays inside the declared bounds whenever the original does. Counterexamples are replayed through gfortran with bounds checking.",
         note="Bounds: extents and trip counts <= 3 (quick) / 4 (thorough); exact arithmetic; callers/callees = enumerated G-I family; inputs = solver. Assumes the original conforms to Fortran's argument-aliasing rules. Trusted: fparser2, z3, fsym, gfortran for replay.",
         ref="5/C07"),
+    "C08": dict(
+        level="other", engine="fsym",
+        technique="SMT oracle on analysis verdicts: for every loop the real DependencyTools reports parallelisable, z3 searches the symbolically executed K-iteration event trace for two iterations touching one location with a write (scalar exemption = two further queries)",
+        text="DependencyTools().can_loop_be_parallelised is called on every loop of a generated dependence family (subscripts i, i+-c, c*i, i/c, MOD, index arrays, loop-invariant and reversed subscripts, structure members, two writes to one array, nests, scalars written conditionally/unconditionally, stepped and negative loops, variables named like the analysis' internal d_<var> symbols), each call under an alarm (termination clause). For every True verdict the loop is unrolled K times from a symbolic pre-state by the fsym interpreter with its memory-event trace on; z3 decides whether two distinct iterations can touch the same location with at least one write, for all inputs; scalars are exempt only if two further queries show that every iteration writes them unconditionally before any read. Witnesses are replayed by re-executing with the witness inputs and a set-based Bernstein check.",
+        note="Bounds: K=3 (quick) / 4 (thorough) consecutive iterations of the analysed loop; programs = enumerated G-D family (about 350); inputs, index-array contents, bounds = solver. Only soundness of True verdicts is asserted. Trusted: fparser2, z3, fsym.",
+        ref="5/C08"),
+    "C13": dict(
+        level="translation_validation", engine="fsym",
+        technique="SMT translation validation with a host/device store model: z3 decides equality of all host arrays between the host run and a device run that performs exactly the emitted copyin/copyout/copy movements, for all inputs and all (arbitrary) initial device contents",
+        text="Real ACCKernelsTrans (where accepted) and ACCDataTrans on every consecutive statement range of a generated region family (partially/conditionally written arrays, write-then-read of different elements, calls, array sections, index arrays, early exits); FortranWriter computes the data-movement clauses, which are read back from the emitted text. The routine is executed symbolically twice: on the host store, and with a device store in which arrays not copied in start as fresh solver variables and only copyout/copy arrays are copied back. One z3 query per region decides equality of every host array; a further trace query classifies a violation as 'undefined device data read' or 'undefined device data copied back'. Counterexamples are replayed by writing the same store model out in Fortran and running original and emulation through gfortran.",
+        note="Bounds: extents and trip counts <= 3/4; arrays only (scalars outside the claim, as the property says); statements between data/end data all run on the device store; programs = enumerated G-R family x all statement ranges. Trusted: fparser2, z3, fsym, the store model (DESIGN Appendix B), gfortran for replay.",
+        ref="5/C13"),
     "C17": dict(
         level="other", engine="verdict-oracle",
         technique="SMT oracle on analysis verdicts: each positive verdict of the real SymbolicMaths/distance code is refuted or confirmed by z3 over all integer valuations",
